@@ -299,8 +299,13 @@ def run(ctx):
         scripts.append(hot_storm_script(ctx.rng, 16, 120, 4))
     for cfg in class_configs():
         scripts.append({"config": cfg, "histories": [class_history(ctx.rng, cfg) for _ in range(3)]})
-    for _ in range(8 if not T else 60):
+    # share configurations every run contains: the percentages whose float image is not exact (p / 100 * 100 != p: 29, 57, 58) and
+    # their neighbours, with allowed counts large enough for one percent to change the rounded-up share; then random ones
+    fixed_shares = [(100, 29), (200, 57), (100, 58), (100, 28), (200, 58), (25, 29), (50, 57)]
+    for k in range(8 if not T else 60):
         cfg = share_config(ctx.rng)
+        if k < len(fixed_shares):
+            cfg["Allowed"]["r1"], cfg["Pct"]["r1"]["a"] = fixed_shares[k]
         scripts.append({"config": cfg, "histories": [share_history(ctx.rng, cfg) for _ in range(2)]})
     traces = execute(ctx, binary, scripts, "rand")
     ctx.sample({"kind": "recorded-trace", "events": traces[0][:14]})
